@@ -107,7 +107,7 @@ def gen_container(world, draw, profile):
         fam = draw(st.sampled_from(fams))
         # pick a volume share then express it in the chosen family
         if math.isinf(room):
-            vol = 10 ** draw(st.floats(0, 5.5))            # 1 uL .. ~300 mL (storage-unit scale of the default cfg)
+            vol = 10 ** draw(st.floats(profile.get('min_log_uL', 0), 5.5))   # 1 uL .. ~300 mL
             vol = vol * 1e-6 / cfg.vol_mult
         else:
             vol = room * draw(st.floats(0.01, 0.6))
@@ -351,9 +351,9 @@ def gen_transfer_quantity(world, draw, profile, op):
     if mode == 'frac':
         f = draw(st.sampled_from([None, None, None, 0.5, 0.25, 0.1]))
         if f is None:
-            f = draw(st.floats(0.001, 0.999))
+            f = draw(st.floats(0.02, 0.9)) if profile.get('safe_margins') else draw(st.floats(0.001, 0.999))
     elif mode == 'over':
-        f = draw(st.floats(1.001, 1.6))
+        f = draw(st.floats(1.1, 1.6)) if profile.get('safe_margins') else draw(st.floats(1.001, 1.6))
     elif mode == 'whole':
         f = 1.0
     elif mode == 'zero':
@@ -434,7 +434,7 @@ def gen_fill_to(world, draw, profile):
     ssub = world.subs[solvent]
     mode = draw(st.sampled_from(profile.get('fill_modes', ['fit'] * 6 + ['below', 'over', 'zero', 'neg'])))
     if math.isinf(cap) or ssub.factor('L') == 0:
-        top = hi * draw(st.floats(1.0, 3.0)) + (10 ** draw(st.floats(-6, -1)) if hi == 0 else 0)
+        top = hi * draw(st.floats(1.05 if profile.get('safe_margins') else 1.0, 3.0)) + (10 ** draw(st.floats(-6, -1)) if hi == 0 else 0)
         room_f = math.inf
     else:
         # room (storage volume) of the fullest well, in the fill unit when topping up with pure solvent
@@ -442,13 +442,13 @@ def gen_fill_to(world, draw, profile):
         room = max(min(rooms), 0.0) * cfg.vol_mult                    # litres
         per = ssub.factor(fam) / ssub.factor('L') if ssub.factor('L') > 0 else 0.0
         room_f = room * per
-        top = hi + room_f * draw(st.floats(0.0, 1.0))
+        top = hi + room_f * (draw(st.floats(0.05, 0.9)) if profile.get('safe_margins') else draw(st.floats(0.0, 1.0)))
     if mode == 'fit':
         x = top
     elif mode == 'below':
-        x = hi * draw(st.floats(0.1, 0.95)) if hi > 0 else 0.0
+        x = hi * draw(st.floats(0.1, 0.9)) if hi > 0 else 0.0
     elif mode == 'over':
-        x = (hi + room_f) * draw(st.floats(1.05, 2.0)) if not math.isinf(room_f) else top
+        x = (hi + room_f) * draw(st.floats(1.1, 2.0)) if not math.isinf(room_f) else top
     elif mode == 'zero':
         x = 0.0
     else:
